@@ -48,6 +48,9 @@ def _patch(cls, R, A):
                 kind, K = _kind_of(part)
                 dom = part.domain
             else:
+                part = part if part is not None else k.get("partition")
+                if part is None and dom is not None:
+                    from PyXAB.partition.BinaryPartition import BinaryPartition as part   # the wrappers' default
                 kind, K = _kind_of(part(domain=dom)) if part is not None and dom is not None else (None, None)
             if kind is None or dom is None:
                 return
@@ -68,12 +71,20 @@ def _patch(cls, R, A):
     def _via(self, kind, orig, args):
         rec = getattr(self, "_vrec", None)
         if rec is None or rec._busy or rec._off or _depth[0] > 0:
-            return orig(self, *args)
+            _depth[0] += 1          # whatever is constructed inside an unrecorded call is not a top-level instance
+            try:
+                return orig(self, *args)
+            finally:
+                _depth[0] -= 1
         want = {"pull": "told", "recv": "asked", "glp": "told"}[kind]
         big = rec.tree is not None and len(rec.tree.nodes) > MAX_CELLS
         if rec._ph != want or rec._calls >= MAX_CALLS or big or rec.failed:
             rec._off = True          # off the documented protocol / budget of the recorder: stop recording this instance
-            return orig(self, *args)
+            _depth[0] += 1
+            try:
+                return orig(self, *args)
+            finally:
+                _depth[0] -= 1
         rec._busy = True
         _depth[0] += 1
         try:
